@@ -1,6 +1,6 @@
 #!/bin/bash
 # bin/seedtry.sh <seed name e.g. C07_2> <ID>...   apply the seed in its own scratch worktree and point the checks at it
-S="$1"; shift; P="${S%%_*}"; WT=/tmp/wt/$P
+S="$1"; shift; P="${S%%_*}"; WT=${SEEDBASE:-/tmp/wt}/$P
 git -C $WT checkout -q -- . ; git -C $WT apply $WT/_seed/$S/patch.diff || exit 2
 for id in "$@"; do
   out=$(JASM_REPO=$WT VERIF_TIER=${VERIF_TIER:-quick} /verif/check "$id" 2>&1); rc=$?
